@@ -30,6 +30,9 @@ var c17Reqs = []c17Req{
 	{"mutation", `mutation { s1(v:1) m1(v:2) { id nn { s } } s2(v:3) }`, nil, nil, "success"},
 	{"thunks", `{ x1 b { name nodes(n:2) { id } } x2 }`, nil, map[string]string{"R@b": FThunk, "R@b.nodes": FThunk, "R@x2": FThunk}, "success"},
 	{"data-null", `{ x1 leafyNN { sNN } }`, nil, map[string]string{"R@leafyNN.sNN": FErr}, "field"},
+	{"nonnull-nil", `{ x1 leafy { s sNN } b { nn { iNN } id } x2 }`, nil, map[string]string{"R@leafy.sNN": FNil, "R@b.nn.iNN": FTypedNil, "R@b.id": FNil}, "field"},
+	{"all-skipped", `{ x1 @skip(if:true) ... @include(if:false) { x2 } }`, nil, nil, "success"},
+	{"typename-only", `{ a { id } u { ... on A { aOnly } ... on B { bOnly } } }`, nil, nil, "success"},
 }
 
 var c17Hooks = []string{"Init", "PS", "PE", "VS", "VE", "ES", "EE", "RS", "RE", "HR", "GR"}
